@@ -505,6 +505,32 @@ class Repo:
         go(c)
         return out
 
+    def follow_delegation(self, f: Func, depth: int = 3) -> Func:
+        """a thin wrapper `def f(..): return <expr>.m(..)` / `return g(..)` (docstring aside) stands for the function it
+        hands over to, when that one is found unambiguously (a function of the same module, or the only method of that name
+        in the package); f itself otherwise"""
+        while depth > 0:
+            body = [s for s in f.node.body if not (isinstance(s, ast.Expr) and isinstance(s.value, ast.Constant))]
+            # plain assignments may fetch the receiver first: `rec = stream.get_records('MODEL')[0]; return rec.m()`
+            if not body or not isinstance(body[-1], ast.Return) or not isinstance(body[-1].value, ast.Call) \
+                    or not all(isinstance(s, (ast.Assign, ast.AnnAssign)) for s in body[:-1]) or len(body) > 3:
+                return f
+            fn = body[-1].value.func
+            tgt = None
+            if isinstance(fn, ast.Name):
+                r = self.resolve(f.module, fn.id)
+                if r and r[0] == 'func':
+                    tgt = r[1]
+            elif isinstance(fn, ast.Attribute):
+                cands = [c.methods[fn.attr] for c in self.all_classes() if dict.__contains__(c.methods, fn.attr)]
+                if len(cands) == 1:
+                    tgt = cands[0]
+            if tgt is None or tgt is f:
+                return f
+            f = tgt
+            depth -= 1
+        return f
+
     def find_method(self, c: Class, name: str) -> Func | None:
         for k in self.mro(c):
             if name in k.methods:
